@@ -48,6 +48,18 @@ impl TestServer {
     }
 }
 
+/// connect to the loopback server; a few retries, because under heavy load (thousands of sockets in TIME_WAIT,
+/// a busy accept loop) a single attempt can fail for reasons that have nothing to do with the code under test
+pub fn connect_retry(port: u16) -> Option<TcpStream> {
+    for _ in 0..8 {
+        if let Ok(s) = TcpStream::connect_timeout(&SocketAddr::from(([127, 0, 0, 1], port)), Duration::from_secs(2)) {
+            return Some(s);
+        }
+        std::thread::sleep(Duration::from_millis(50));
+    }
+    None
+}
+
 /// connect from a given loopback source address (127.0.0.x)
 pub fn connect_from(src_last: u8, port: u16) -> std::io::Result<TcpStream> {
     use std::os::fd::{FromRawFd, IntoRawFd};
